@@ -43,25 +43,21 @@ theorem c17_total_counterexample_syn_text :
     isPanic (Sys.run {} [.open .A 1000 1500, .inject .A (forge .A 18 5000 1001 65535 [7])])
       "panic:sub-overflow:process_segment.unreceived" = true := by decide
 
-/-- F-C01-1: in SYN-SENT a segment without SYN that carries text is checked against the
-    uninitialised `RCV.NXT = 0`: the `assert!` fails … -/
-theorem c17_total_counterexample_synsent_text :
-    isPanic (Sys.run {} [.open .A 1000 1500, .inject .A (forge .A 16 70000 1001 65535 [7])])
-      "panic:assert:process_segment.text_in_window" = true := by decide
-
-/-- the bytes returned by the last op when it was a `read` -/
-def lastRead (r : Except String (Sys × List Res)) : Option (List UInt8) :=
+/-- the TCB of side A after the ops -/
+def tcbA (r : Except String (Sys × List Res)) : Option Tcb :=
   match r with
-  | .ok (_, rs) => match rs.getLast? with
-    | some (.read b) => some b
-    | _ => none
+  | .ok (s, _) => s.a.tcb
   | .error _ => none
 
-/-- … or, when the forged sequence number is near 0, the text is accepted: an endpoint that is
-    still waiting for a SYN hands attacker bytes to the application (F-C01-1) -/
-theorem c17_unacceptable_noop_counterexample_synsent :
-    lastRead (Sys.run {} [.open .A 1000 1500, .inject .A (forge .A 16 0 1001 65535 [7, 8, 9]),
-      .read .A]) = some [7, 8, 9] := by decide
+/-- F-C01-1 (fixed): in SYN-SENT a segment without SYN that carries text used to be checked
+    against the uninitialised `RCV.NXT = 0` (the `assert!` failed, or for sequence numbers near
+    0 the bytes were handed to the application); now it is dropped: the TCB after the segment
+    is the TCB before it -/
+theorem c17_regression_synsent_text :
+    tcbA (Sys.run {} [.open .A 1000 1500, .inject .A (forge .A 16 70000 1001 65535 [7])])
+      = tcbA (Sys.run {} [.open .A 1000 1500]) ∧
+    tcbA (Sys.run {} [.open .A 1000 1500, .inject .A (forge .A 16 0 1001 65535 [7, 8, 9])])
+      = tcbA (Sys.run {} [.open .A 1000 1500]) := by decide
 
 /-- the reorder queue of side A after the ops -/
 def heapA (r : Except String (Sys × List Res)) : Option (List Segment) :=
